@@ -10,6 +10,8 @@ import tsast
 from tsast import walk, s, unparen, method_call
 from rules import ts_common
 
+from facts import mentions_str_lit, is_str_lit
+
 LEVEL = "other"
 
 VOCAB = {
@@ -298,7 +300,7 @@ def run(cx, rep):
                         rep.ob("C02.2", "%s/type/field:%s" % (fname, fld), lits is not None and set(lits) <= TYPES,
                                "%s emits `type: this.%s` whose declared domain %s is not within the JSON Schema type names" % (fname, fld, lits), mod.loc(p["value"]),
                                sample={"site": fname, "field": fld, "declared_domain": sorted(lits) if lits else None})
-    rep.floor("C02.2", "schema keys checked", n_keys, 40)
+    rep.floor("C02.2", "schema keys checked", n_keys, 30)
     # ---------------------------------------------------------------- C02.3
     rep.rule("C02.3", "keyword co-occurrence")
     for fname, fn in fns:
@@ -564,7 +566,7 @@ def run(cx, rep):
                 rep.ob("C02.4", "%s.%s/%s" % (cname, mname, name), ok,
                        "%s.%s emits a $ref for `%s` that is not preceded by the ensure-definition sequence (guard -> mark -> schema -> store) for the same name" % (cname, mname, name),
                        mod.loc(call), sample={"site": "%s.%s" % (cname, mname), "name": name})
-    rep.floor("C02.4", "$ref emission sites", n_ref, 3)
+    rep.floor("C02.4", "$ref emission sites", n_ref, 2)
     # ---------------------------------------------------------------- C02.11
     rep.rule("C02.11", "schema() reads every constructor argument it read on the reviewed tree")
     ts_common.field_matrix_rule(cx, rep, "C02.11", ['schema'])
@@ -641,7 +643,7 @@ def disc_schema_table_rule(cx, rep, rid):
             if call["k"] != "Call":
                 continue
             args = call.get("args") or []
-            if not (args and args[0].get("k") == "Lit" and args[0].get("v") == "AnyOfDiscriminatedRuntype"):
+            if not (args and is_str_lit(F, args[0], "AnyOfDiscriminatedRuntype")):
                 continue
             arrs = [x for a in args[1:] for x in RF.walk(a) if x["k"] == "Array"]
             if not arrs:
@@ -957,7 +959,7 @@ def discriminator_required_rule(cx, rep, rid):
     F = cx.rs
     from facts import walk as hwalk, walk_inlined
     builders = [g for g, t in F.hir.items() if F.fns.get(g) is not None and "/src/print/" in (F.fns[g].file or "") and F.fns[g].kind != "Closure"
-                and any(n["k"] == "Lit" and n.get("v") == "AnyOfDiscriminatedRuntype" for n in hwalk(t["body"]))]
+                and t.get("params") and mentions_str_lit(F, t["body"], "AnyOfDiscriminatedRuntype")]
     if len(builders) != 1:
         rep.anchor_missing(rid, "the printer function that builds `new AnyOfDiscriminatedRuntype(..)`; found %d" % len(builders))
         return
